@@ -49,6 +49,8 @@ def configs(ctx):
     k = 0
     for s in ["ap", "gd", "ip", "lfq", "lhq", "ll", "llp", "ltq", "pbq", "rnd", "spq"]:
         for cores in (1, 2, 4, 16):
+            if cores == 1 and s in ("ll", "llp"):
+                continue            # documented by the module: no active wait with a single thread (live-lock risk)
             k += 1
             out.append({"sched": s, "cores": cores, "conc": (1 if k % 4 == 0 else 32), "noise": (k if k % 2 else 0)})
     return out
